@@ -14,6 +14,7 @@ flags=""
 if [ -n "$demo" ] && grep -q "verif_hooks" "$demo"; then flags="--cfg helgoboss_midi_verif"; fi
 feat=""
 if grep -qi "no-default-features" $seed/NOTES.md 2>/dev/null && grep -qi "only.*no-default-features\|--no-default-features --test" $seed/NOTES.md; then feat="--no-default-features"; fi
+if [ -n "$demo" ] && grep -q "serde" "$demo"; then feat="--features serde,serde_repr"; fi
 if [ -n "$demo" ]; then
   cp "$demo" tests/seed_demo_$n.rs
   clean=$(RUSTFLAGS="$flags" cargo test --offline $feat --test seed_demo_$n 2>&1 | grep -E "^test result|^error" | tr '\n' ' ')
